@@ -70,6 +70,10 @@ def main():
             conf['suite_with_change'] = m.group(0) if m else ('rc=%d ' % rc + out[-300:])
             conf['suite_passes'] = bool(m) and m.group(1) == m.group(2) and rc == 0
             print("suite:", conf['suite_with_change'])
+            if not conf['suite_passes']:
+                fails = sorted(set(re.findall(r"^\s+(?:FAIL|TIMEOUT|SIGABRT|SIGSEGV)\s+\[[^\]]*\]\s+(\S.*)$", out, re.M)))
+                conf['suite_failures'] = fails[:20]
+                print("  failing tests:", fails[:10])
         demo = os.path.join(d, 'demo.rs')
         if do_demo and os.path.exists(demo):
             dc = '/tmp/sv-demo-' + name
@@ -81,13 +85,25 @@ def main():
                 '[package]\nname = "seed-demo"\nversion = "0.0.0"\nedition = "2021"\n\n[workspace]\n\n[dependencies]\n'
                 'usvg = { path = "%s/crates/usvg" }\nresvg = { path = "%s/crates/resvg" }\ntiny-skia = "0.11.4"\n' % (wt, wt))
             shutil.copy(os.path.join(wt, 'Cargo.lock'), os.path.join(dc, 'Cargo.lock'))
-            shutil.copy(demo, os.path.join(dc, 'tests', 'demo.rs'))
+            pidm = re.match(r"(C\d+)", name)
+            seedroot = '/tmp/seed-' + (pidm.group(1) if pidm else 'X')
+            bindir = tgt + '/debug'
+            dsrc = open(demo).read()
+            needs_bins = 'SEED_BIN_DIR' in dsrc or 'Command::new' in dsrc
+            dsrc = dsrc.replace(seedroot + '-target/debug', bindir).replace(seedroot + '/', wt + '/')
+            open(os.path.join(dc, 'tests', 'demo.rs'), 'w').write(dsrc)
             for extra in os.listdir(d):
                 if extra.startswith('demo_') or extra.endswith('.svg'):
                     shutil.copy(os.path.join(d, extra), os.path.join(dc, 'tests', extra))
-            env = {'CARGO_TARGET_DIR': tgt + '-demo'}
+            env = {'CARGO_TARGET_DIR': tgt + '-demo', 'SEED_BIN_DIR': bindir,
+                   'SEED_FONTS_DIR': wt + '/crates/resvg/tests/fonts'}
+            binbuild = ['cargo', 'build', '--offline', '-p', 'resvg', '-p', 'usvg', '--bins']
+            if needs_bins:
+                sh(binbuild, cwd=wt, env={'CARGO_TARGET_DIR': tgt})
             rc1, out1 = sh(['cargo', 'test', '--offline', '--test', 'demo'], cwd=dc, env=env)
             sh(['git', 'stash'], cwd=wt)
+            if needs_bins:
+                sh(binbuild, cwd=wt, env={'CARGO_TARGET_DIR': tgt})
             rc0, out0 = sh(['cargo', 'test', '--offline', '--test', 'demo'], cwd=dc, env=env)
             sh(['git', 'stash', 'pop'], cwd=wt)
             conf['demo_with_change'] = 'fail' if rc1 != 0 else 'pass'
